@@ -618,6 +618,10 @@ class DescriptorGen:
 				names = [v.name.lower() for v in chosen]
 				if rng.randrange(4) == 0:
 					names.insert(rng.randrange(len(names) + 1), 'none')
+				if rng.randrange(3) == 0:
+					# a name given twice is still that one flag (the value is the union of the named flags)
+					names.insert(rng.randrange(len(names) + 1), rng.choice([v.name.lower() for v in chosen]))
+					self.note('flags:repeated-name')
 				self.note('flags:names')
 				return {'s': ' '.join(names)}
 			chosen = rng.choice(values)
@@ -714,6 +718,11 @@ class DescriptorGen:
 					actual = defaults[condition_field.name]
 				holds = (wanted == actual) if conditional.operation == 'equals' else (wanted != actual)
 				if not holds:
+					if rng.randrange(3) == 0:
+						# a value for the arm that is not selected: the object holds it, the encoding (and any id derived from the
+						# selected arm) ignores it
+						chosen[field.name] = self.member(model, field, path, top, in_message=in_message)
+						self.note(f'conditional:{field.name}:stray')
 					continue
 				if defaults[field.name] is None or rng.random() < density:
 					chosen[field.name] = self.member(model, field, path, top, in_message=in_message)
